@@ -942,18 +942,19 @@ class Crystal(object):
         super = np.eye(self.dim, dtype=int)
         modified = False
         # check the possible vector reductions (edited to handle 2 and 3 dimensions)
+        # an exact tie (ratio +-1/2) must not shear: with rounding noise it would shear back and forth forever
         asq = np.dot(self.lattice.T, self.lattice)
-        u = np.around(asq[0, 1] / asq[0, 0])
+        u = np.around(asq[0, 1] / asq[0, 0] * (1. - 1e-8))
         if u != 0:
             super[0, 1] = -int(u)
             modified = True
         elif self.dim > 2:
-            u = np.around(asq[0, 2] / asq[0, 0])
+            u = np.around(asq[0, 2] / asq[0, 0] * (1. - 1e-8))
             if u != 0:
                 super[0, 2] = -int(u)
                 modified = True
             else:
-                u = np.around(asq[1, 2] / asq[1, 1])
+                u = np.around(asq[1, 2] / asq[1, 1] * (1. - 1e-8))
                 if u != 0:
                     super[1, 2] = -int(u)
                     modified = True
